@@ -11,11 +11,13 @@
    goptlib's SocksListener, real SOCKS5 clients of the harness over loopback, the
    real sf.NewSnowflakeClient / Transport.Dial; the config is seen through the
    guarded hook newclient.config):
-     Connect{args}        the next SOCKS request; args: field -> absent | ok | bad
+     Connect{args,q}      the next SOCKS request; args: field -> absent | ok | bad; q = FALSE:
+                          part of a burst (several requests let through in a row, the
+                          handlers run side by side, one observation after the last)
      AcceptTemp AcceptPerm
      SocksEnd{i,kind}     the SOCKS client ends its stream (half-close)
      Shutdown             the harness closes the shutdown channel
-     obs                  at rest: loop, pauses, ln.Close calls, wg counter zero?,
+     obs                  at rest: loop, (pauses: not compared,) ln.Close calls, wg counter zero?,
                           SnowflakeConn.Close calls so far, per connection where
                           handler / dial goroutine / copiers are parked, the SOCKS
                           reply, the config NewSnowflakeClient was given (per field:
@@ -57,8 +59,9 @@ IOk == E.i \in Conns
 
 ArgsOf(e) == [f \in FieldSet |-> e.args[f]]
 
-TConnect     == IsEv("Connect") /\ ArgsOf(E) \in ArgChoices /\ GConnect(ArgsOf(E)) /\ Adv
-TAcceptTemp  == IsEv("AcceptTemp") /\ GAcceptTemp /\ Adv
+(* q = FALSE: a request of a burst - sent and accepted without waiting for the process to come to rest *)
+TConnect     == IsEv("Connect") /\ ArgsOf(E) \in ArgChoices /\ (IF E.q THEN GConnect(ArgsOf(E)) ELSE LAcceptConn(ArgsOf(E))) /\ Adv
+TAcceptTemp  == IsEv("AcceptTemp") /\ (GAcceptRetryAtOnce \/ GAcceptRetryAfterPause) /\ Adv    \* either way (not judged)
 TAcceptPerm  == IsEv("AcceptPerm") /\ GAcceptPerm /\ Adv
 TSocksChunk  == IsEv("SocksChunk") /\ IOk /\ GSocksChunk(E.i) /\ Adv
 TSocksEnd    == IsEv("SocksEnd") /\ IOk /\ E.kind \in {"eof", "err"} /\ GSocksEnd(E.i, E.kind) /\ Adv
@@ -95,7 +98,7 @@ Sum(f, S) == LET RECURSIVE Acc(_)
 TObs ==
   /\ IsEv("obs")
   /\ Quiescent
-  /\ L.pc = E.loop /\ L.pauses = E.pauses /\ L.lncloses = E.lncloses
+  /\ L.pc = E.loop /\ L.lncloses = E.lncloses      \* (E.pauses is recorded for the check's note, it is not compared)
   /\ shutdown = E.shutdown /\ (wg = 0) = E.wgzero
   /\ Sum([i \in Conns |-> C[i].fclosed], Conns) = E.sfcloses
   /\ Len(E.conns) = L.nacc
@@ -141,6 +144,6 @@ TCopyLaw == CopyLaw
 TClosedOnce == SocksClosedOnce /\ SfClosedOnce
 TReplyLaw == ReplyLaw
 TConfig == ConfigIsolation /\ ConfigSeenWhenDue
-TLoop == LoopEndsOnlyOnPerm /\ LnClosedByLoop /\ NoSpin
+TLoop == LoopEndsOnlyOnPerm /\ LnClosedByLoop
 TNoStuck == NoStuck /\ NoLeak
 =============================================================================
